@@ -92,14 +92,15 @@ def run(R, tier, seed, driver_ok):
             if name == 'SDML_Supervised':
                 params['balance_param'] = zoo.sdml_safe_balance(name, X, None, {'n_constraints': params['n_constraints'] or 20 * 16})
             if name == 'SCML_Supervised':
-                params['basis'] = 'triplet_diffs'
+                params['basis'] = 'triplet_diffs' if rep % 4 != 3 else 'lda'     # ('lda': the base learner has no such option —
+                #                                                                   relations 2 and 3 below judge it)
                 params['k_genuine'], params['k_impostor'] = int(rng.randint(1, 4)), int(rng.randint(1, 5))
             if name == 'RCA_Supervised':
                 params['chunk_size'] = int(rng.choice([2, 3]))
                 params['n_chunks'] = d + 2
                 params['n_components'] = [None, max(1, d - 1), 1][int(rng.randint(3))]     # the reduced branch reads more of X
             params = zoo.fix_params(name, params, X, yl)
-            num_classes = len(np.unique(yl))
+            num_classes = len(np.unique(yl[yl >= 0]))        # classes = distinct KNOWN labels (negative = unlabeled)
             case = {'est': name, 'params': {k: (v if not isinstance(v, np.ndarray) else 'array') for k, v in params.items()}, 'X': X, 'y': yl, 'seed': sd}
             R.case(('c08', name, repr(sorted(case['params'].items())), yl.tobytes().hex(), X.tobytes().hex()[:32]), True,
                    sample={'est': name, 'params': case['params'], 'labels': yl, 'unknown_labels': bool(unknown)}, branch=f'{name}:{"unknown" if unknown else "all-known"}')
@@ -114,11 +115,12 @@ def run(R, tier, seed, driver_ok):
                           if name not in ('RCA_Supervised', 'SCML_Supervised') else
                           (['chunks', str(params['n_chunks']), str(params['chunk_size'])] if name == 'RCA_Supervised'
                            else ['knn', str(params['k_genuine']), str(params['k_impostor'])]))
+            lda_basis = name == 'SCML_Supervised' and params.get('basis') == 'lda'
             try:
                 with warnings.catch_warnings():
                     warnings.simplefilter('ignore')
                     sup = zoo.CLASSES[name](**params).fit(X, yl)
-                    base = base_fit(name, wiring, params, X, yl, sd)
+                    base = sup if lda_basis else base_fit(name, wiring, params, X, yl, sd)
             except Exception as e:
                 collapsed = False
                 if dup_stream and wiring[0] == 'pairs':
@@ -145,6 +147,20 @@ def run(R, tier, seed, driver_ok):
                     sup2 = zoo.CLASSES[name](**params).fit(X2, yl)
                 M2 = sup2.get_mahalanobis_matrix()
                 R.case(('c08-perturb', name, yl.tobytes().hex(), X.tobytes().hex()[:32]), True, branch=f'{name}:perturb-unlabeled')
+                # relation 3: leaving the unlabeled rows out altogether gives the same metric (same seed, same — possibly
+                # default — number of constraints: the default counts the known classes only)
+                if name != 'RCA_Supervised':
+                    keep = yl >= 0
+                    try:
+                        with warnings.catch_warnings():
+                            warnings.simplefilter('ignore')
+                            sup3 = zoo.CLASSES[name](**params).fit(X[keep], yl[keep])
+                        M3 = sup3.get_mahalanobis_matrix()
+                        R.case(('c08-drop', name, yl.tobytes().hex(), X.tobytes().hex()[:32]), True, branch=f'{name}:drop-unlabeled')
+                        if M3.shape != Ms.shape or np.abs(M3 - Ms).max() > 1e-9 * max(np.abs(Ms).max(), 1e-300):
+                            R.violation(f'{name}/unlabeled-points-matter/dropped', f'{name}: fitting without the unlabeled rows gives another metric (max diff {np.abs(M3 - Ms).max() if M3.shape == Ms.shape else "shape"}; n_constraints={params.get("n_constraints")}, basis={params.get("basis")})', case)
+                    except Exception as e:
+                        R.violation(f'{name}/fit-raises-{type(e).__name__}/dropped', f'{name}: fitting without the unlabeled rows raised {type(e).__name__}: {str(e)[:160]}', case)
                 if M2.shape != Ms.shape or np.abs(M2 - Ms).max() > 1e-9 * max(np.abs(Ms).max(), 1e-300):
                     R.violation(f'{name}/unlabeled-points-matter', f'{name}: changing the feature rows of unlabeled points changes the learned metric (max diff {np.abs(M2 - Ms).max() if M2.shape == Ms.shape else "shape"})', case)
     R.extra['traces_validated_against_impl'] = R.evaluations
